@@ -24,11 +24,12 @@ def module_consts(path):
 def main():
     props = [json.loads(l) for l in open(os.path.join(ROOT, "properties.jsonl"))]
     checks, na = [], []
+    ready = set(open(os.path.join(ROOT, "tools", "ready.txt")).read().split())
     for p in props:
         pid = p["id"]
         have = glob.glob(os.path.join(ROOT, "checks", pid.lower() + "_*.py"))
         consts = module_consts(have[0]) if have else {}
-        if have and all(k in consts for k in ("LEVEL", "TECHNIQUE", "LEVEL_TEXT", "LEVEL_NOTE")):
+        if have and pid in ready and all(k in consts for k in ("LEVEL", "TECHNIQUE", "LEVEL_TEXT", "LEVEL_NOTE")):
             cat, tech, text, note, ref = consts["LEVEL"], consts["TECHNIQUE"], consts["LEVEL_TEXT"], consts["LEVEL_NOTE"], f"DESIGN.md section 4, {pid}"
             checks.append({
                 "property_id": pid,
